@@ -68,7 +68,7 @@ theorem c15_mcopy_spec (m : MemState) (hinv : m.Inv) (gas : Nat) (dst src len : 
       · unfold mcopyCost; omega
   · have hpos : 0 < len := by omega
     by_cases hr : max dst src + len ≤ 0x1FFFFFFFE0
-    · rw [mcopyStep_pos m gas dst src len hpos hr hsm] at h
+    · rw [mcopyStep_pos m gas dst src len hpos hr hsm hal hfee] at h
       dsimp only at h
       generalize hW : (max dst src + len + 31) / 32 = W at *
       generalize hfv : (if W * 32 > m.store.length then memFee W - m.lastGasCost else 0) = feeV at h
@@ -127,7 +127,7 @@ theorem c15_mcopy_no_panic (m : MemState) (hinv : m.Inv) (gas : Nat) (dst src le
   by_cases hl : len = 0
   · subst hl; rw [mcopyStep_zero]; split <;> rfl
   · by_cases hr : max dst src + len ≤ 0x1FFFFFFFE0
-    · rw [mcopyStep_pos m gas dst src len (by omega) hr hinv.small]
+    · rw [mcopyStep_pos m gas dst src len (by omega) hr hinv.small hinv.aligned hinv.fee]
       dsimp only
       by_cases hg : gas < 3
       · rw [if_pos hg]; rfl
